@@ -39,6 +39,7 @@ structure S where
   sharedConn : Option Nat := none
   failS : List String := []
   failT : List String := []
+  failCreate : List Node := []   -- components whose factory fails inside service.New
   failN : List String := []      -- extensions whose NotifyConfig fails
   failR : List String := []      -- extensions whose Ready fails
   hookFailSeen : Bool := false   -- implementation: some notify/ready event failed
@@ -52,11 +53,12 @@ structure S where
   bad : Option String := none
 
 def newResult (s : S) : String :=
-  match newService s.cfg s.exts with
-  | some .connector => "err=connector"
-  | some .cycle => "err=cycle"
-  | some .extMissing => "err=extmissing"
-  | some .extCycle => "err=extcycle"
+  match newServiceWith s.cfg s.exts (fun n => s.failCreate.contains n) with
+  | some (.new .connector) => "err=connector"
+  | some (.new .cycle) => "err=cycle"
+  | some (.new .extMissing) => "err=extmissing"
+  | some (.new .extCycle) => "err=extcycle"
+  | some .create => "err=create"
   | none => "ok"
 
 def emitNew (s : S) : S × List String :=
@@ -152,6 +154,10 @@ def handler : Handler S where
     | ["sharedconn", i] =>
       match i.toNat? with
       | some i => ({ s with sharedConn := some i }, [])
+      | none => (s, ["obs bad-op"])
+    | ["failcreate", l] =>
+      match parseNode l with
+      | some n => ({ s with failCreate := s.failCreate ++ [n] }, [])
       | none => (s, ["obs bad-op"])
     | ["failnotify", l] => let (s, o) := emitNew s; ({ s with failN := s.failN ++ [l] }, o)
     | ["failready", l] => let (s, o) := emitNew s; ({ s with failR := s.failR ++ [l] }, o)
